@@ -15,90 +15,12 @@
    harness evaluates it on every generated page through the extracted model, so the per-input
    residue of C15 shrinks to "html5-parser reads a well-nested stream like a stack parser". *)
 From Coq Require Import List NArith Arith Bool String Lia.
-From WMD Require Import Gen.Tables Lib.Str Lib.PyChars Lib.Escape Lib.Difflib Model.RenderTokens Model.RenderMerge
+From WMD Require Import Gen.Tables Lib.Str Lib.PyChars Lib.Escape Lib.Difflib Model.RenderTokens Model.RenderMerge Model.RenderLabelled
      Proofs.DifflibProofs Proofs.MergeProofs Proofs.EscapeProofs Proofs.TokenProofs Proofs.AssembleProofs Proofs.RenderProofs.
 Import ListNotations.
 Open Scope N_scope.
 
 (* ------------------------------------------------------------------ how a chunk acts on the stack of open elements *)
-(* Every page stream is wrapped in <head></head><body> ... </body> (the fragment is parsed as a whole document and
-   only the <html> tag is skipped).  Inside a body an HTML parser ignores html/head/body tags, and so does this
-   reading: they are allowed only while no element is open and leave the stack alone. *)
-Definition wrappers : list str := map s2l ["html"; "head"; "body"]%string.
-Definition is_wrapper (n : str) : bool := mem_str n wrappers.
-
-Inductive ev :=
-| EOpen (n : str)      (* start tag of an element that gets an end tag *)
-| EClose (n : str)     (* its end tag *)
-| EBlk                 (* a block-level tag that does not touch the stack (void / opaque block element) *)
-| EWrap                (* an html/head/body tag *)
-| ENone.               (* text, void and opaque inline elements *)
-
-(* the same reading of a chunk that merge_changes uses: name by chunk_tag_name, end tag by the
-   second character, elements without end tag = undiffable_content_tags and empty_tags *)
-Definition chunk_event (s : str) : ev :=
-  if starts_lt s then
-    let n := chunk_tag_name s in
-    if is_wrapper n then EWrap
-    else if tracks_open n then (if second_is_slash s then EClose n else EOpen n)
-    else if is_block_name n then EBlk else ENone
-  else ENone.
-
-Definition all_block (st : list str) : bool := forallb is_block_name st.
-
-(* the page side: well nested, block-level tags only when every open element is block-level,
-   html/head/body tags only at the top level *)
-Fixpoint balc (l : list str) (st : list str) : option (list str) :=
-  match l with
-  | [] => Some st
-  | s :: l' =>
-      match chunk_event s with
-      | EOpen n => if is_block_name n && negb (all_block st) then None else balc l' (n :: st)
-      | EClose n => match st with
-                    | m :: st' => if str_eqb m n then balc l' st' else None
-                    | [] => None
-                    end
-      | EBlk => if all_block st then balc l' st else None
-      | EWrap => match st with [] => balc l' [] | _ => None end
-      | ENone => balc l' st
-      end
-  end.
-
-(* the view side: stack entries are element names or a change marker ([None]) *)
-Definition entry := option str.
-Definition is_name (e : entry) : bool := match e with Some _ => true | None => false end.
-Definition no_marker (st : list entry) : bool := forallb is_name st.
-
-Definition push_open (n : str) (st : list entry) : option (list entry) :=
-  if is_block_name n && negb (no_marker st) then None else Some (Some n :: st).
-
-Definition pop_close (n : str) (st : list entry) : option (list entry) :=
-  match st with
-  | Some m :: st' => if str_eqb m n then Some st' else None
-  | _ => None
-  end.
-
-Definition ostep (o : ochunk) (st : list entry) : option (list entry) :=
-  match o with
-  | OOpen => if no_marker st then Some (None :: st) else None       (* markers do not nest *)
-  | OClose => match st with None :: st' => Some st' | _ => None end  (* a marker is closed by its own end tag *)
-  | OSynOpen n => if is_wrapper n then Some st else push_open n st
-  | OSynClose n => if is_wrapper n then Some st else pop_close n st
-  | OSrc s => match chunk_event s with
-              | EOpen n => push_open n st
-              | EClose n => pop_close n st
-              | EBlk => if no_marker st then Some st else None
-              | EWrap => Some st
-              | ENone => Some st
-              end
-  end.
-
-Fixpoint nest (l : list ochunk) (st : list entry) : option (list entry) :=
-  match l with
-  | [] => Some st
-  | o :: l' => match ostep o st with Some st' => nest l' st' | None => None end
-  end.
-
 Lemma nest_app a : forall b st, nest (a ++ b) st = match nest a st with Some m => nest b m | None => None end.
 Proof.
   induction a as [|o a IH]; intros b st; cbn [app nest]; [reflexivity|].
@@ -116,16 +38,11 @@ Proof.
   - apply IH.
 Qed.
 
-Definition names (S : list str) : list entry := map (@Some str) S.
-
 Lemma no_marker_names S : no_marker (names S) = true.
 Proof. induction S as [|n S IH]; [reflexivity|exact IH]. Qed.
 
 Lemma names_app a b : names (a ++ b) = names a ++ names b.
 Proof. apply map_app. Qed.
-
-(* the part of the tracked names that is on the stack: everything but html/head/body *)
-Definition nw (cc : list str) : list str := filter (fun n => negb (is_wrapper n)) cc.
 
 Lemma nw_app a b : nw (a ++ b) = nw a ++ nw b.
 Proof. apply filter_app. Qed.
@@ -520,30 +437,6 @@ Proof.
 Qed.
 
 (* ------------------------------------------------------------------ which trees meet the hypothesis *)
-(* A structural, decidable description of the pages the theorem speaks about: every element's
-   start and end tag read back to one and the same name (true of every name an HTML tokenizer can
-   produce), opaque and void elements do not look like an element that needs closing, a
-   block-level element never sits inside an inline one, and head/body only occur at the top.
-   [top] = no element is open; [ab] = all open ancestors are block-level. *)
-Definition neutral_ok (ab : bool) (s : str) : bool :=
-  match chunk_event s with ENone => true | EBlk => ab | _ => false end.
-
-Fixpoint tree_ok (top ab : bool) (e : el) : bool :=
-  match e with
-  | El tag attrs text children tail source =>
-      if mem_str tag Tables.undiffable_content_tags && negb (str_eqb tag (s2l "img")) then neutral_ok ab source
-      else
-        let st := start_tag (El tag attrs text children tail source) in
-        if is_void tag then neutral_ok ab st && forallb (tree_ok top ab) children
-        else match chunk_event st, chunk_event (end_tag (El tag attrs text children tail source)) with
-             | EOpen n, EClose m => str_eqb n m && (negb (is_block_name n) || ab) && forallb (tree_ok false (is_block_name n && ab)) children
-             | ENone, ENone => forallb (tree_ok top ab) children
-             | EBlk, EBlk => ab && forallb (tree_ok top ab) children
-             | EWrap, EWrap => top && forallb (tree_ok top ab) children
-             | _, _ => false
-             end
-  end.
-
 Definition is_top (S : list str) : bool := match S with [] => true | _ => false end.
 
 Lemma balc_neutral_cons s l S : neutral_ok (all_block S) s = true -> balc (s :: l) S = balc l S.
@@ -639,9 +532,6 @@ Proof.
     destruct text; destruct children; destruct tail; exact Hgen.
 Qed.
 
-(* the page itself (contents of the root element: head and body) *)
-Definition page_ok (root : el) : bool := forallb (tree_ok true true) (el_children root).
-
 Theorem page_ok_balanced root : page_ok root = true -> balc (nb (map chunk_str (flatten_root root))) [] = Some [].
 Proof.
   intros Hok. rewrite balc_nb. destruct root as [tag attrs text children tail source]. cbn [flatten_root el_children page_ok] in *.
@@ -660,17 +550,3 @@ Theorem admissible_pages_nest (old_root new_root : el) rules cap (new_side : boo
                (token_opcodes rules (prepare old_root cap) (prepare new_root cap))) [] = Some [].
 Proof. intros H. apply pages_single_sided_nest, page_ok_balanced, H. Qed.
 
-(* ------------------------------------------------------------------ executable report for the harness *)
-Definition is_done {A} (o : option (list A)) : bool := match o with Some [] => true | _ => false end.
-
-(* for one page pair: [page_ok old; page_ok new; stream of old well nested; stream of new well nested;
-   deletions view nests; insertions view nests] - the theorems say 1 => 3 => 5 and 2 => 4 => 6 *)
-Definition nesting_report (old_root new_root : el) (rules : option (list rule)) (cap : N) : list bool :=
-  let old := prepare old_root cap in
-  let new := prepare new_root cap in
-  let ops := token_opcodes rules old new in
-  [page_ok old_root; page_ok new_root;
-   is_done (balc (nb (map chunk_str (flatten_root old_root))) []);
-   is_done (balc (nb (map chunk_str (flatten_root new_root))) []);
-   is_done (nest (view_l false old new ops) []);
-   is_done (nest (view_l true old new ops) [])].
